@@ -19,6 +19,40 @@ func clipInt(v float64) int {
 	return int(math.Round(v))
 }
 
+// flatPoints lists the vertices of a geometry in storage order.
+func flatPoints(g orb.Geometry) []orb.Point {
+	var out []orb.Point
+	switch v := g.(type) {
+	case orb.Point:
+		out = append(out, v)
+	case orb.MultiPoint:
+		out = append(out, v...)
+	case orb.LineString:
+		out = append(out, v...)
+	case orb.Ring:
+		out = append(out, v...)
+	case orb.MultiLineString:
+		for _, l := range v {
+			out = append(out, l...)
+		}
+	case orb.Polygon:
+		for _, r := range v {
+			out = append(out, r...)
+		}
+	case orb.MultiPolygon:
+		for _, p := range v {
+			for _, r := range p {
+				out = append(out, r...)
+			}
+		}
+	case orb.Collection:
+		for _, m := range v {
+			out = append(out, flatPoints(m)...)
+		}
+	}
+	return out
+}
+
 func init() {
 	register("project", func(c *ctx) {
 		// (1) structural: every shape through project.Geometry and the typed helpers with the tagging function
@@ -109,11 +143,26 @@ func init() {
 					default:
 						p = [2]int{c.rng.Intn(3*int(ext)) - int(ext), c.rng.Intn(3*int(ext)) - int(ext)}
 					}
+					if j == 0 && c.rng.Intn(3) == 0 { // the tile's own corner / edges first: the zero value of a point
+						p = [][2]int{{0, 0}, {0, p[1]}, {p[0], 0}}[c.rng.Intn(3)]
+					}
 					pts = append(pts, p)
 					mp = append(mp, orb.Point{float64(p[0]), float64(p[1])})
 				}
+				// the same twelve vertices as a multipoint, a line, two lines, a polygon with a hole or two polygons
+				var fg orb.Geometry = mp
+				switch c.rng.Intn(6) {
+				case 0:
+					fg = orb.LineString(mp)
+				case 1:
+					fg = orb.MultiLineString{orb.LineString(mp[:5]), orb.LineString(mp[5:])}
+				case 2:
+					fg = orb.Polygon{orb.Ring(mp[:7]), orb.Ring(mp[7:])}
+				case 3:
+					fg = orb.MultiPolygon{{orb.Ring(mp[:4])}, {orb.Ring(mp[4:8]), orb.Ring(mp[8:])}}
+				}
 				fc := geojson.NewFeatureCollection()
-				fc.Append(geojson.NewFeature(mp))
+				fc.Append(geojson.NewFeature(fg))
 				l := mvt.NewLayer("l", fc)
 				l.Extent = ext
 				layers = append(layers, l)
@@ -155,8 +204,14 @@ func init() {
 			for li, l := range layers {
 				// near the poles the mercator square ends: rows outside the world cannot come back
 				var out [][2]int
-				for _, p := range l.Features[0].Geometry.(orb.MultiPoint) {
+				for _, p := range flatPoints(l.Features[0].Geometry) {
 					out = append(out, [2]int{clipInt(p[0]), clipInt(p[1])})
+				}
+				if len(out) != len(ins[li]) { // a vertex went missing or the kind changed: leave the mismatch for the spec to see
+					for len(out) < len(ins[li]) {
+						out = append(out, [2]int{1000000000, 1000000000})
+					}
+					out = out[:len(ins[li])]
 				}
 				worldRows := float64(uint64(1)<<uint32(z)) * float64(l.Extent)
 				lo, hi := -float64(tile.Y)*float64(l.Extent), worldRows-float64(tile.Y)*float64(l.Extent)
